@@ -150,7 +150,16 @@ def export_lists(fn: ast.FunctionDef) -> List[Tuple[ast.AST, Any]]:
         if isinstance(st, ast.Return):
             if st.value is None:
                 raise Unrecognised(st, 'bare return')
-            results.append((st, lit(st.value, env)))
+            # a conditional expression returns either list
+            pend, alts = [st.value], []
+            while pend:
+                v_ = pend.pop()
+                if isinstance(v_, ast.IfExp):
+                    pend += [v_.orelse, v_.body]
+                else:
+                    alts.append(v_)
+            for v_ in alts:
+                results.append((v_ if len(alts) > 1 else st, lit(v_, env)))
             return []
         if isinstance(st, ast.If):
             a = block(st.body, dict(env))
